@@ -700,7 +700,7 @@ func lookupFieldAnyPkg(t types.Type, name string) (types.Object, []int) {
 }
 
 func (f *FuncCtx) safety(kind string, env *Env, cond string, at ast.Node) {
-	if f.spec != nil || f.C == nil || !f.C.Safe[kind] || f.fr == nil || f.fr.depth > 0 {
+	if f.spec != nil || f.C == nil || !f.C.Safe[kind] || f.fr == nil {
 		return
 	}
 	f.safeOrd[kind]++
